@@ -7,7 +7,8 @@ Contracts (tokio docs):
                   every sender was dropped; dropping the receiver closes the channel and drops the queued messages.
   oneshot       : send fails (returning the value) iff the receiver was dropped; the receiver resolves to Err(RecvError)
                   iff the sender was dropped without sending; Sender::is_closed iff the receiver was dropped.
-  timeout       : polls the inner future first; Err(Elapsed) once the deadline has passed (logical clock of the world).
+  timeout       : polls the inner future first; Err(Elapsed) once the deadline (creation time + duration) has passed on the
+                  logical millisecond clock of the world, which only the harness advances (tick = 150 ms, longtick = 60 s).
 """
 import z3
 from values import *
@@ -207,14 +208,24 @@ def m_ois_closed(I, c, args, fr):
     return s.inner.rx_dropped
 
 # ---------------------------------------------------------------------------- time
+def duration_ms(d):
+    """milliseconds of a Duration value (the logical clock of the world counts milliseconds)"""
+    d = deref(d)
+    if isinstance(d, Adt) and d.ty == 'Duration':
+        secs, nanos = d.fields[0], d.fields[1]
+        if is_sym(secs) or is_sym(nanos):
+            raise Unsupported('symbolic timer duration')
+        return secs * 1000 + -(-nanos // 1_000_000)          # tokio rounds timers up to its 1 ms granularity
+    raise Unsupported('timer duration %r' % (d,))
+
 class TimeoutFut(PyFuture):
-    def __init__(self, I, fut): self.fut = fut; self.armed = world(I).clock; self.done = False
+    def __init__(self, I, fut, dur): self.fut = fut; self.deadline = world(I).clock + duration_ms(dur); self.done = False
     def poll(self, I):
         r = poll_value(I, self.fut, CX)
         if r.variant == 'Ready':
             self.done = True
             return ok(r.fields[0])
-        if world(I).clock > self.armed:
+        if world(I).clock >= self.deadline:
             self.done = True
             return err(Adt('Elapsed', None, 0, []))
         return PENDING
@@ -223,16 +234,16 @@ class TimeoutFut(PyFuture):
 
 @model('tokio::time::timeout', 'time::timeout', 'timeout')
 def m_timeout(I, c, args, fr):
-    return TimeoutFut(I, args[1])
+    return TimeoutFut(I, args[1], args[0])
 
 class SleepFut(PyFuture):
-    def __init__(self, I): self.armed = world(I).clock
+    def __init__(self, I, dur): self.deadline = world(I).clock + duration_ms(dur)
     def poll(self, I):
-        return UNIT if world(I).clock > self.armed else PENDING
+        return UNIT if world(I).clock >= self.deadline else PENDING
 
 @model('tokio::time::sleep', 'time::sleep', 'sleep')
 def m_sleep(I, c, args, fr):
-    return SleepFut(I)
+    return SleepFut(I, args[0])
 
 # ---------------------------------------------------------------------------- tasks / select model
 @model('tokio::spawn', 'spawn', 'task::spawn')
